@@ -1,5 +1,6 @@
 (* C08 — Clone is a deep copy that shares no mutable container with its source. *)
 From Anytype Require Import Base FloatBits Value Equality Heap HeapProofs CloneProofs CloneHistory.
+From Anytype Require Import HeapExt HeapExtProofs CloneHistory Reachable.
 Local Open Scope nat_scope.
 
 (* [clone_val] transcribes the two copy() methods; [reify] reads a heap value as a pure tree (None = cyclic / dangling);
@@ -63,6 +64,31 @@ Example C08_shallow_copy_refuted :
 Proof. split; [eapply (reach_l_elem _ 1 [HL 0] (HL 0)) | eapply (reach_l_elem _ 2 [HL 0] (HL 0))];
   try reflexivity; try (left; reflexivity); apply reach_l_self. Qed.
 
+
+(* The theorems above assume a well-formed heap (every stored container value points at an existing cell of its kind) and a
+   source that is such a value. These are not assumptions about the library: EVERY state that ANY extended program (every method
+   of both interfaces, HeapExt.v) reaches from the empty state is well-formed, provided the program text itself mentions
+   containers only through variables (literal operands are scalars: [xop_ok], a decidable syntactic condition the correspondence
+   runner checks on every program it executes). Hence, in every reachable state, for every variable: *)
+Theorem C08_every_reachable_state_is_well_formed : forall (fadd fmul fdiv : Z -> Z -> Z) (of_int : Z -> Z) prog, Forall xop_ok prog ->
+  state_wf (xexec fadd fmul fdiv of_int init_state prog).
+Proof. exact reachable_wf. Qed.
+Theorem C08_reachable_clone_shares_nothing : forall (fadd fmul fdiv : Z -> Z -> Z) (of_int : Z -> Z) prog, Forall xop_ok prog ->
+  let s := xexec fadd fmul fdiv of_int init_state prog in
+  forall v f h' v' r, In v (st_env s) -> clone_val f (st_heap s) v = Some (h', v') -> CloneProofs.Reach h' v r -> CloneProofs.Reach h' v' r -> False.
+Proof. intros fadd fmul fdiv of_int prog OK. exact (reachable_clone_disjoint fadd fmul fdiv of_int prog OK). Qed.
+Theorem C08_reachable_clone_history_independent : forall (fadd fmul fdiv : Z -> Z -> Z) (of_int : Z -> Z) prog, Forall xop_ok prog ->
+  let s := xexec fadd fmul fdiv of_int init_state prog in
+  forall v f h' v' steps f2, In v (st_env s) -> clone_val f (st_heap s) v = Some (h', v') ->
+    (run_local (fun i => length (st_heap s) <= i)%nat h' steps ->
+       reify f2 (run_steps h' steps) v = reify f2 h' v /\ (forall r, CloneProofs.Reach (run_steps h' steps) v r <-> CloneProofs.Reach h' v r)) /\
+    (run_local (fun i => i < length (st_heap s))%nat h' steps ->
+       reify f2 (run_steps h' steps) v' = reify f2 h' v' /\ (forall r, CloneProofs.Reach (run_steps h' steps) v' r <-> CloneProofs.Reach h' v' r)).
+Proof. intros fadd fmul fdiv of_int prog OK. exact (reachable_clone_independent_full fadd fmul fdiv of_int prog OK). Qed.
+(* the syntactic condition is needed: a literal container id in the program text would be stored as it is *)
+Theorem C08_literal_container_ids_excluded : ~ state_wf (fst (step_core init_state (NewList [Lit (HL 7%nat)]))).
+Proof. exact lit_injection_breaks_wf. Qed.
+
 Print Assumptions C08_total.
 Print Assumptions C08_equal.
 Print Assumptions C08_equals.
@@ -73,3 +99,7 @@ Print Assumptions C08_reify_frame.
 Print Assumptions C08_independent.
 Print Assumptions C08_history.
 Print Assumptions C08_wf_preserved.
+Print Assumptions C08_every_reachable_state_is_well_formed.
+Print Assumptions C08_reachable_clone_shares_nothing.
+Print Assumptions C08_reachable_clone_history_independent.
+Print Assumptions C08_literal_container_ids_excluded.
